@@ -277,6 +277,26 @@ def run(ctx):
             disagree("request-line", r, wire, want, got, kf)
     ctx.oblige("K-callsite: real receiver/parser verdict on single lines equals the grammar (outside open known-finding classes)", site_ok)
 
+    # the call-site theorems are about Model/Receiver.v and Model/Parser.v: check the
+    # models against the real classes (K-chanseq), a slice of the full suite run by C01/C02
+    from harness import parser_corr
+    ctx.build(["Model/ChanSeq.vo"])
+    prunner = ctx.runner("parser", "ExtParser.v")
+    if prunner is None:
+        ctx.oblige("K-chanseq: extracted parser/receiver models build", False)
+    else:
+        import random as _r
+        cases = parser_corr.build_cases(_r.Random(ctx.seed + 10), 60 if ctx.tier == "quick" else 600, small_atoms=1)
+        stats, bad = parser_corr.run_cases(prunner, cases)
+        evaluations += stats["evaluations"]
+        ctx.coverage["k_chanseq"] = {k: stats[k] for k in ("evaluations", "reads", "requests_completed", "errors", "unmodelled")}
+        if bad:
+            d = parser_corr.shrink(prunner, bad[0])
+            ctx.report("kchanseq:" + "".join(d["reads"])[:60],
+                       "Model/Parser.v / Receiver.v disagree with the real parser (the call-site theorems no longer speak for the code)",
+                       {"failing_input_found": False, "correspondence": "K-chanseq", "case": d})
+        ctx.oblige("K-chanseq: Receiver/Parser/ChanSeq models agree with the real classes on every generated stream", not bad)
+
     # search when a proof obligation broke: shortest distinguishing string from
     # the verified derivative construction, replayed on the real call site
     if not props_ok:
